@@ -134,6 +134,7 @@ def drift_of(scn, events):
             # a holed image was completed although the design left it alone (a refresh copy recurses into the
             # layers when the source manifest had to be fetched with GET): more than was predicted, not drift
             out.append("+repaired")
+            break       # the later runs start from a state the design did not predict
         elif p["nw"] != nputs[i]:
             out.append("writes")
     return out
